@@ -41,6 +41,10 @@ impl FromStr for FullDate {
     type Err = Error;
 
     fn from_str(s: &str) -> Result<Self, Error> {
+        // RFC 3339 full-date has no sign: time's [year] would accept "+YYYY" / "-YYYY".
+        if !s.as_bytes().first().map_or(false, u8::is_ascii_digit) {
+            anyhow::bail!("full-date must start with a four-digit year");
+        }
         Ok(FullDate(Date::parse(s, FORMAT)?))
     }
 }
